@@ -80,8 +80,10 @@ func runC10(c *Ctx) {
 	c.borrow("R14/C12.", runC12, func(rule, _ string) bool { return rule == "R2" })
 	// R9 = C11.R1/R2/R6: "durably recorded" rests on the storage-backed authority writing the manifest last, never
 	// after a failed upload, and on the write primitive reporting a failed commit (Close) as an error.
-	c.borrow("R9/C11.", runC11, func(rule, _ string) bool {
-		return rule == "R1" || rule == "R2" || rule == "R6" || strings.HasPrefix(rule, "ESP R1") || strings.HasPrefix(rule, "ESP R2") || strings.HasPrefix(rule, "ESP R6")
+	c.borrow("R9/C11.", runC11, func(rule, construct string) bool {
+		// engine reports carry the rule "ESP" and name the clause at the head of the construct ("R2:<function>")
+		esp := rule == "ESP" && (strings.HasPrefix(construct, "R1:") || strings.HasPrefix(construct, "R2:") || strings.HasPrefix(construct, "R6:"))
+		return rule == "R1" || rule == "R2" || rule == "R6" || rule == "R13" || esp
 	})
 	// R15: a mutex taken anywhere in the repository's non-test code is released on every exit of the function that took
 	// it — a failed step of a rotation must not leave the authority (or a key manager) locked for the next attempt.
